@@ -41,6 +41,15 @@ class Run:
             return True
         return False
 
+    def overtime(self):
+        """Hard stop inside one program's comparisons: 25 % over the tier's budget the remaining comparisons of
+        the program are dropped (counted as not started), so that a thorough run ends close to its budget."""
+        if time.time() - self.t0 > self.cfg["budget_s"] * 1.25:
+            if self.budget_hit is None:
+                self.budget_hit = self.programs
+            return True
+        return False
+
     # ---------------------------------------------------------------------------------
     def rows_for(self, program, kind):
         return self.cfg["rows_flat"] if kind in ("flat", "template", "agg", "shared", "twins") else self.cfg["rows"]
@@ -214,11 +223,13 @@ def corpus(run, kinds, with_templates=False, rec_templates=0, all_templates=Fals
     g = G.Gen(vc.seed() * 7919 + 17)
     out = []
     if rec_templates:
-        rt = G.rec_templates()
+        ref = G.rec_ref_templates()
+        rt = G.rec_templates()[:-len(ref)]
         if rec_templates < len(rt):
             step = -(-len(rt) // rec_templates)
             rt = rt[vc.seed() % step::step]
-        out.extend((t, "rec") for t in rt)
+        # bound queries whose recursive relation is referenced elsewhere too: always all of them
+        out.extend((t, "rec") for t in rt + ref)
     if with_templates:
         ts = G.templates()
         if len(ts) > run.cfg["n_templates"] and not all_templates:
@@ -564,6 +575,8 @@ def check_pairwise(run, program, kind, cases, key, what):
     for sk in order[1:]:
         if sk not in plans:
             continue
+        if run.overtime():
+            break
         g, pl = groups[sk], plans[sk]
         side = list(pb.conv) + list(pl.conv)
         t0 = time.time()
